@@ -18,13 +18,24 @@ theorem fill2 (c : Nat) (h : c < 100) :
   rw [this]
   simp [ArmiVerif.SnapStore.pad2, h, castCodes]
 
+theorem fmtD2' : ((List.range 100).all fun c => decide
+    (pyFmtD 2 (c : Int) = [((48 + c / 10 : Nat) : Int), ((48 + c % 10 : Nat) : Int)])) = true := by decide +kernel
+
+theorem fmtD2 (c : Nat) (h : c < 100) :
+    pyFmtD 2 (c : Int) = castCodes (ArmiVerif.SnapStore.pad2 c) := by
+  have := List.all_eq_true.1 fmtD2' c (by simpa using h)
+  simp only [decide_eq_true_eq] at this
+  rw [this]
+  simp [ArmiVerif.SnapStore.pad2, h, castCodes]
+
 /-- `database.getH5GroupName` as written now = `SnapStore.name` (code points of `cXXnYY<label>`), for every cycle and
 node below 100 (the width the `{:0>2}` format guarantees) and every label -/
 theorem getH5GroupName_eq (c n : Nat) (l : List Nat) (hc : c < 100) (hn : n < 100) :
     ArmiVerif.Gen.Src.Database.getH5GroupName (c : Int) (n : Int) (castCodes l)
       = castCodes (ArmiVerif.SnapStore.name ⟨c, n, l⟩) := by
   unfold ArmiVerif.Gen.Src.Database.getH5GroupName ArmiVerif.SnapStore.name
-  simp only [fill2 c hc, fill2 n hn]
+  (try simp only [])
+  simp only [fill2 c hc, fill2 n hn, fmtD2 c hc, fmtD2 n hn]
   cases l <;> simp [castCodes]
 
 end ArmiVerif.SrcTie
